@@ -290,6 +290,15 @@ func cmdLed(args []string) error {
 				if st.Ev != "disconnect" && !b.NoWait {
 					n0 = srv.frameCount()
 					res.LedActive = waitFrames(srv, n0, 2, 2*time.Second)
+					// frames the device had written before the step may still be on their way to the server (seen under heavy
+					// load: two of them): the frame is taken only once two further frames have brought nothing new
+					for round := 0; res.LedActive && round < 3; round++ {
+						a := fmt.Sprint(srv.lastFrame())
+						n1 := srv.frameCount()
+						if !waitFrames(srv, n1, 2, 2*time.Second) || fmt.Sprint(srv.lastFrame()) == a {
+							break
+						}
+					}
 				}
 				res.Frame = srv.lastFrame()
 				if res.Frame == nil {
